@@ -51,16 +51,6 @@ def dtJson (d : DT GQ) : Json :=
 
 def exErr (e : TNet.Err) : Json := Json.mkObj [("err", .str e.toStr)]
 
-/-- `TensorNetwork.is_consistent`: symbolic consistency, every data reference present with the tensor's shape -/
-def isConsistentData {α : Type} (tn : TN α) : Except TNet.Err Bool := do
-  if !(← isConsistent tn.net) then return false
-  return tn.net.tensors.all (fun e => e.2.tid == -1 ||
-    match e.2.dataref with
-    | none => false
-    | some r => match tn.data.lookup r with
-      | none => false
-      | some d => d.shape == e.2.shape)
-
 /-- number of terms of the dense value -/
 def valueCost (net : Net) : Nat :=
   match dget net.tensors (-1) with
